@@ -34,6 +34,7 @@ DECIDES = (
     "accept either vertex order (C01.NEIGHBOUR-SYMMETRY, C01.COINCIDENCE-SYMMETRY)."
     ' The whole chain BlockList.check_consistency -> Block -> Axis -> wire manager is also run abstractly on a symbolic two-block model: a count conflict inside a block or with a coincident wire of another block is refused whatever else holds (uniform gradings shared by the four wires, own chops, either manager class), and an anti-aligned multigraded neighbour with the same total count is accepted (part of C01.CONSISTENCY-REACH); AXIS_PAIRS lists the four wires of a direction in the order blockMesh reads edgeGrading (C01.AXIS-TABLE).'
     ' The count a wire manager reports (the one written into the hex entry) is the total of its grading over all divisions (part of C01.COUNT-CARRIED).'
+    " A chopped axis grades its wires from its own chops whatever its neighbours carry already, so the count in the hex entry is the count on the block's edges (C01.CHOPPED-WIRES = C04.RESULTS-BEFORE-COPY)."
 )
 NOT_DECIDED = "that counts are in fact equal after propagation for every topology (runtime propagation over block graphs)."
 ASSUMPTIONS = ["write_vtk (debug output) is the one writer allowed before grade(), as the source comment states"]
